@@ -43,7 +43,7 @@ def regenerate():
 def traced_run(case):
     with heaptrace.tracing() as tr:
         out = pipes.run(case["pipeline"], dispose_at=case.get("dispose_at"), dispose_early=case.get("dispose_early", False),
-                        dispose_in=case.get("dispose_in"))
+                        dispose_in=case.get("dispose_in"), sub_raises=case.get("sub_raises", False))
     return out, tr
 
 
